@@ -987,6 +987,9 @@ class Transaction(object):
                     inputs[n].witness_type = 'p2sh-segwit'
                 elif 'unknown' in script.script_types and not coinbase:
                     inputs[n].script_type = 'unknown'
+                if inputs[n].prev_txid == 32 * b'\0':
+                    # witness reserved value of a segwit coinbase (BIP141): keep it when serializing
+                    inputs[n].witness_type = 'segwit'
 
                 inputs[n].update_scripts()
 
